@@ -267,6 +267,10 @@ EXTRA_TOKEN_LINES = [
 
 
 EXTRA_TOKEN_BLOCKS = [[ln] for ln in EXTRA_TOKEN_LINES] + [
+    # `if` is also a library function: an expression statement that starts with a call of it (white space may separate the name and its parenthesis)
+    [('', [(None, 'if'), ('opt', '('), ('opt', 'ok'), ('opt', ','), ('opt', 'systemLog'), ('opt', '('), ('opt', "'pass'"), ('opt', ')'), ('opt', ','), ('opt', 'zz'), ('opt', ')')])],
+    # adjacent include lines merge into one include statement, however each of them is laid out
+    [('', [(None, 'include'), ('req', "'util.bare'")]), ('', [(None, 'include'), ('req', '<forms.bare>')]), ('', [(None, 'include'), ('req', "'a b.bare'")])],
     # a literal TAB inside a string / a bracketed name is data, wherever the line is broken
     [('', [(None, 'zz'), ('opt', '='), ('opt', 'arrayJoin'), ('opt', '('), ('opt', 'cells'), ('opt', ','), ('opt', "'\t'"), ('opt', ','), ('opt', '1'), ('opt', ')')])],
     [('    ', [(None, 'zz'), ('opt', '='), ('opt', "'a\tb\t'"), ('opt', '+'), ('opt', '['), ('opt', 'col\tname]'), ('opt', '+'), ('opt', '"\t\t"')])],
